@@ -81,6 +81,21 @@ CHECKS["C08"] = dict(
    text="30k (quick) / 600k (thorough) histories of 1-25 structural edits (21 kinds over tables, inline tables, arrays, arrays of tables) on documents whose every line carries a unique marker: after every edit the printed text must parse, decode to the model with the same edit applied (values before sections, hidden empties), the structure must read back as the model, and every untouched `key = value # marker` source fragment must still be present verbatim. A probe run exercises known finding F18.",
    note="orders the specification/API leave open are compared as sets and listed in DESIGN.md (children of a parent with a header-less table, sections after sort_values, parent of an array of tables that lost its first element); main run excludes F18's trigger by construction",
    design="4/C08")
+CHECKS["C07"] = dict(
+   technique="generated values of a derived-type family through seven serializers; oracle = independent model serializer (expected TOML tree by the documented mapping) + deserialize-back equality; proptest-driven with shrinking",
+   text="60k (quick) / 1.5M (thorough) values of ~20 root types covering every serde shape TOML supports and the documented unsupported ones: each serializer must return an error exactly for the unsupported shapes, otherwise produce valid text (reference) that decodes to the independently computed tree and deserializes back to an equal value (NaN-total equality).",
+   note="the mapping serde data model -> TOML is the harness' reading of the documentation (serdefam::expected_node); None as a map value and tuple/struct variants at the root are treated as left open (stated in DESIGN.md)",
+   design="4/C07")
+CHECKS["C13"] = dict(
+   technique="differential testing of nine decoding routes and three value deserializers on serialized and re-spelt texts of generated typed values, and of nine routes on generated documents; try_from vs serialize-then-parse",
+   text="For 20k (quick) / 500k (thorough) typed values: on each of four serialized texts and on a re-spelt text (same data, generated other layout/spelling) all nine routes must succeed, agree and return the value; Value/Table::try_from must equal parsing the serialized text. 30k/600k generated documents are decoded into toml::Value through nine routes and compared with the by-construction tree.",
+   note="known finding F5 (date-times through the stand-alone toml::Value serializer/deserializer) is tolerated under its signature",
+   design="4/C13")
+CHECKS["C17"] = dict(
+   technique="metamorphic / idempotence testing on generated toml::Value trees and typed values, in the sorted and the preserve_order build of the harness",
+   text="60k+20k (quick) / 1.5M+500k (thorough) cases per build: to_string is deterministic, reaches a fixed point in one step (plain and pretty), plain and pretty decode to equal trees, the output is valid and decodes to the value whatever order the map yields keys in, toml::Table Display is deterministic and a fixed point, toml_edit's serializer carries the same data.",
+   note="second build of the harness with toml's preserve_order feature (target-po)",
+   design="4/C17")
 NOT_YET = {}
 
 def main():
